@@ -11,7 +11,7 @@ from fractions import Fraction
 from itertools import product
 
 from ..common import Result, sut, digest
-from ..taps import InjectedFault
+from ..taps import InjectedFault, RandomTap, installed
 
 ID = "C07"
 RULE = ("random configurations: overall degree function from gcmpy's own distributions or a random positive table "
@@ -20,6 +20,7 @@ RULE = ("random configurations: overall degree function from gcmpy's own distrib
         "target inside / at both ends / outside; both construction paths; non-trivial = >=2 degrees in range and a "
         "degree with >=2 admissible splits; distinct = SHA-1 of the concrete configuration")
 RULE += ("; rounds k-l added: " + 'hub cases (12% of the two-topology configurations): overall degrees 940..1066 with a table of vertex counts 1e6..1e8')
+RULE += '; round n: a sample-and-tabulate step (sample_jds_from_jdd + convert_jds_to_jdd on the same loader) before a rebuild, in a third of the rebuild histories'
 ASSUMPTIONS = ["probs[0] > 0 (otherwise odd degrees have no admissible split of positive weight and the law is undefined)",
                "the upper end of the degree range may be inclusive or exclusive; collapse to fewer degrees is a violation",
                "floats are converted exactly to rationals; comparison at 1e-9 absolute on probabilities"]
@@ -192,6 +193,7 @@ def check_config(res, cfg, keep=None):
     if isinstance(jdd, dict) and cfg.get("recreate"):
         # history on one loader: building the table again must give the same table
         first = dict(jdd)
+        rng_hist = random.Random(cfg["hi"] * 7919 + cfg["lo"])
         for it in range(cfg["recreate"]):
             if cfg["recreate"] == 2 and it == 0:
                 # injected fault: the table is being rebuilt when the caller's degree function raises (at its 3rd call); the caller
@@ -205,6 +207,17 @@ def check_config(res, cfg, keep=None):
                 except Exception:
                     res.count("rebuilds_aborted_otherwise")
                 fp.fault = None
+            elif it == 0 and cfg["hi"] <= 60 and (cfg["lo"] + cfg["hi"]) % 3 == 0:
+                # the loader is USED in between: a sequence is sampled from it and tabulated back into it through the base class's own
+                # public helper (the table is then the empirical one, with the tuples the handshaking step added); building the table
+                # again must give the table of the degree function and probabilities, nothing left over
+                try:
+                    with installed(RandomTap(seed=7 + cfg["hi"], keep_log=False), "jd"):
+                        js = obj.sample_jds_from_jdd(rng_hist.randint(5, 40))
+                    obj.convert_jds_to_jdd(js)
+                    res.count("tables_replaced_by_a_sampled_empirical_table_before_the_rebuild")
+                except Exception:      # noqa: BLE001 - sampling and tabulating have their own properties
+                    res.count("sample_and_tabulate_steps_that_raised")
             sut("create_jdd (again)", obj.create_jdd)
             res.count("recreate_checks")
         jdd = sut("read .jdd", lambda: obj.jdd)
